@@ -65,6 +65,12 @@ def insertBy (desc : Bool) (x : Int) (i : Nat) : List (Int × Nat) → List (Int
     if (if desc then decide (y < x) else decide (x < y)) then (x, i) :: (y, j) :: r
     else (y, j) :: insertBy desc x i r
 
+/-- an integer, or a double that holds a whole number -/
+def wholeInt : Val → Option Int
+  | .int n => some n
+  | .dbl m e => if m % (2 ^ e : Int) == 0 then some (m / (2 ^ e : Int)) else none
+  | _ => none
+
 def stdSel (op : String) (opts : Val) (docs : List Val) : R (List Nat) :=
   if op == "$match" then
     match opts with
@@ -84,15 +90,16 @@ def stdSel (op : String) (opts : Val) (docs : List Val) : R (List Nat) :=
           .ok (((keys.zipIdx).foldl (fun acc ki => insertBy (dir < 0) (ki.1.getD 0) ki.2 acc) []).map (·.2))
     | _ => .error .unmodelled
   else if op == "$skip" then
-    -- `_handle_skip_stage`: a non-negative integer (not a bool), OperationFailure otherwise
-    match opts with
-    | .int n => if n < 0 then .error .opFail else .ok ((List.range docs.length).drop n.toNat)
-    | _ => .error .opFail
+    -- `_handle_skip_stage`: a non-negative integer (a double that holds a whole number counts
+    -- as that integer; not a bool), OperationFailure otherwise
+    match wholeInt opts with
+    | some n => if n < 0 then .error .opFail else .ok ((List.range docs.length).drop n.toNat)
+    | none => .error .opFail
   else if op == "$limit" then
-    -- `_handle_limit_stage`: a positive integer (not a bool), OperationFailure otherwise
-    match opts with
-    | .int n => if n ≤ 0 then .error .opFail else .ok ((List.range docs.length).take n.toNat)
-    | _ => .error .opFail
+    -- `_handle_limit_stage`: a positive integer (same reading), OperationFailure otherwise
+    match wholeInt opts with
+    | some n => if n ≤ 0 then .error .opFail else .ok ((List.range docs.length).take n.toNat)
+    | none => .error .opFail
   else .error .unmodelled
 
 def stdJoins (loc frn : String) (doc : Val) (foreign : List Val) : R (List Nat) :=
